@@ -46,7 +46,16 @@ def check_stat(ctx, case):
         for bi, (a, b) in enumerate(zip(cuts, cuts[1:])):
             if b > a:
                 lt, ld = case.get('layout') or ('C', 'C')
-                must(case, '%s.update' % kind, obj.update, gen.relayout(traces[a:b], lt), gen.relayout(data[a:b], ld))
+                if case.get('same_buffer') and all(y - x == cuts[1] - cuts[0] for x, y in zip(cuts, cuts[1:])):
+                    # the caller keeps ONE preallocated pair of arrays and refills it in place before every update
+                    if bi == 0:
+                        tbuf, dbuf = np.array(traces[a:b], copy=True), np.array(data[a:b], copy=True)
+                    else:
+                        tbuf[...] = traces[a:b]
+                        dbuf[...] = data[a:b]
+                    must(case, '%s.update (same buffers refilled in place)' % kind, obj.update, tbuf, dbuf)
+                else:
+                    must(case, '%s.update' % kind, obj.update, gen.relayout(traces[a:b], lt), gen.relayout(data[a:b], ld))
                 if bi < len(mid) and mid[bi]:
                     must(case, '%s.compute between batches' % kind, obj.compute)   # must not disturb what follows
         res = must(case, '%s.compute' % kind, obj.compute)
@@ -89,7 +98,7 @@ def check_stat(ctx, case):
                 raise Violation('%s: |r| = %r > 1' % (kind, g), case)
     nontrivial = (n_undef > 0 and n_def > 0) or data.ndim >= 3
     ctx.case(case, nontrivial, ['kind:' + kind, 'prec:' + precision, 'regime:' + regime, 'word_ndim:%d' % (data.ndim - 1),
-                                'has_undefined' if n_undef else 'all_defined', 'batches:%d' % (len(cuts) - 1), 'tdtype:' + str(traces.dtype), 'layout:%s/%s' % tuple(case.get('layout') or ('C', 'C'))] + (['compute_before_final'] if any(mid) or case.get('compute_twice') else []))
+                                'has_undefined' if n_undef else 'all_defined', 'batches:%d' % (len(cuts) - 1), 'tdtype:' + str(traces.dtype), 'layout:%s/%s' % tuple(case.get('layout') or ('C', 'C'))] + (['same_buffer_refilled'] if case.get('same_buffer') else []) + (['compute_before_final'] if any(mid) or case.get('compute_twice') else []))
 
 
 def replay(ctx, case):
@@ -185,10 +194,17 @@ def stat_cases(draw, kind, large=False):
     data = data.reshape((n,) + tuple(wshape)) if wshape else (data.reshape(n) if draw(st.booleans()) else data.reshape(n, 1))
     ncuts = draw(st.integers(0, 2))
     cuts = sorted(draw(st.lists(st.integers(1, n - 1), min_size=ncuts, max_size=ncuts))) if n > 1 else []
+    same_buffer = False
+    if n >= 4 and not large and draw(st.integers(0, 3)) == 0:
+        # equal-sized batches (fed through one buffer that is refilled in place)
+        m = draw(st.sampled_from([d_ for d_ in (2, 3, 4, 5) if n % d_ == 0] or [1]))
+        if m > 1:
+            cuts = [n // m * i for i in range(1, m)]
+            same_buffer = True
     mid = [draw(st.booleans()) for _ in range(len(cuts) + 1)]
     # memory layout of what the caller passes: C order, Fortran order, strided and negative-stride views (values are the same)
     layout = [draw(st.sampled_from(gen.LAYOUTS)), draw(st.sampled_from(gen.LAYOUTS))]
-    return {'kind': 'stat', 'dist': kind, 'precision': precision, 'regime': regime, 'traces': traces, 'data': data, 'cuts': cuts, 'layout': layout,
+    return {'kind': 'stat', 'dist': kind, 'precision': precision, 'regime': regime, 'traces': traces, 'data': data, 'cuts': cuts, 'layout': layout, 'same_buffer': same_buffer,
             'mid_computes': mid, 'compute_twice': draw(st.booleans())}
 
 
